@@ -284,6 +284,13 @@ def run(ctx):
     else:
         ctx.fail("C06.R6", "terminal", "psutil/_pslinux.py", 0, "Process.terminal",
                  f"terminal() = `{pretty(tt)[:140]}`")
+    # ------------------------------------------------------------------- R9
+    ctx.rule("C06.R9", "status-file slots: uids/gids are (real, effective, saved) = "
+             "groups 1..3 of the Uid:/Gid: line in that order; num_ctx_switches is "
+             "(voluntary, nonvoluntary) = first and second `*ctxt_switches:` line; "
+             "num_threads is the Threads: line", floor=9)
+    _r9(ctx, repo, I, pm)
+
     # ------------------------------------------------------------------- R8
     ctx.rule("C06.R8", "old-kernel records: a read of a stat column that old kernels "
              "do not print (index >= %d after comm) tolerates its absence - it sits in a "
@@ -304,6 +311,59 @@ def run(ctx):
             "state letters.",
             "abstract interpretation (provenance + units), regex static analysis, "
             "table agreement")
+
+
+def _r9(ctx, repo, I, pm):
+    cache = {}
+    for (q, field), (keytxt, match_i, group_i) in sorted(O.STATUS_SLOTS.items(),
+                                                        key=lambda kv: (kv[0][0], str(kv[0][1]))):
+        fi = repo.func(pm, q)
+        if q not in cache:
+            cache[q] = evaluate(I, fi)
+        t = cache[q]
+        v = t
+        key = f"{q}.{field}" if field else q
+        if field is not None:
+            nts = [a for a in alternatives(t) if a[0] == "nt"]
+            if not nts or field not in nts[0][2]:
+                ctx.fail("C06.R9", key, fi.file, fi.node.lineno, fi.qual,
+                         f"{q}() no longer returns a record with field {field}")
+                continue
+            v = nts[0][3][nts[0][2].index(field)]
+        fa = collect(v, lambda x: x and x[0] == "findall")
+        if not fa:
+            ctx.advisory(f"C06.R9 {key}: value `{pretty(v)[:70]}` is not a findall()-based "
+                         f"extraction; slot not decided")
+            ctx.ok("C06.R9", key, sample="not decided", nontrivial=False)
+            continue
+        pat = fa[0][1][1] if fa[0][1][0] == "const" else b""
+        ptxt = pat.decode("latin1") if isinstance(pat, bytes) else str(pat)
+        ngroups = re.compile(pat).groups if pat else 0
+        # index path from the findall result down to the value
+        path = []
+        cur = v
+        while isinstance(cur, tuple) and cur and cur is not fa[0] and cur != fa[0]:
+            if cur[0] == "idx" and isinstance(cur[2], int):
+                path.append(cur[2])
+                cur = cur[1]
+            elif cur[0] == "call" and len(cur) == 3:
+                cur = cur[2]
+            else:
+                break
+        path.reverse()
+        want_path = [match_i] + ([group_i] if ngroups > 1 else [])
+        probs = []
+        if keytxt not in ptxt.replace("\\t", "").replace("^", ""):
+            probs.append(f"the pattern {ptxt!r} does not select the `{keytxt}` line")
+        if path != want_path:
+            probs.append(f"it is match/group {path} of the pattern; proc(5) puts it at {want_path}")
+        if "/status" not in pretty(fa[0][2]):
+            probs.append("the subject is not <pid>/status")
+        if probs:
+            ctx.fail("C06.R9", key, fi.file, fi.node.lineno, fi.qual,
+                     f"{key}: " + "; ".join(probs))
+        else:
+            ctx.ok("C06.R9", key, sample={key: f"{keytxt} match {match_i} group {group_i}"})
 
 
 class _LenSubst(ast.NodeTransformer):
